@@ -97,6 +97,68 @@ class ParseMixinArguments(Contract):
 CONTRACTS = [ParseMixinArguments()]
 
 
+# ------------------------------------------------------------------------------------------ mixin-vs-unpack decision
+from .c09_pruning import FakeSchema                 # noqa: E402
+
+from . import c03_arguments as _c03       # noqa: E402,F401  (registers the type nodes, with their builders)
+
+for _c, _f in ((G.FragmentDefinitionNode, ["name", "type_condition", "selection_set", "directives"]), (G.SelectionSetNode, ["selections"]),
+               (G.InlineFragmentNode, ["type_condition", "selection_set", "directives"]), (G.FragmentSpreadNode, ["name", "directives"]),
+               (G.FieldNode, ["alias", "name", "arguments", "directives", "selection_set"])):
+    try:
+        V.REG.register(_c, _f)
+    except ValueError:       # registered by another contract module with its own field list (a superset is fine for the shapes below)
+        pass
+NAMED_TYPE_NODE = Cls(G.NamedTypeNode, name=GQ.NAME_NODE)
+SELECTION = OneOf(Cls(G.FieldNode, name=GQ.NAME_NODE), Cls(G.FragmentSpreadNode, name=GQ.NAME_NODE), Cls(G.InlineFragmentNode))
+FRAGMENT_DEF = Cls(G.FragmentDefinitionNode, name=Opt(GQ.NAME_NODE), type_condition=NAMED_TYPE_NODE,
+                   selection_set=Cls(G.SelectionSetNode, selections=TupleOf(SELECTION, name="fragment_selections")))
+SCHEMA_TYPE = OneOf(Cls(G.GraphQLObjectType, name=GQ.NAME), Cls(G.GraphQLInterfaceType, name=GQ.NAME), Cls(G.GraphQLUnionType, name=GQ.NAME))
+is_inline = SpecMap("selection_is_inline_fragment", lambda sel: V.VBool(GQ.is_cls(sel, V.REG.info(G.InlineFragmentNode))))
+
+
+class UnpackFragment(Contract):
+    """statement: `a named fragment is a base class unless ...`: the decision whether a fragment is unpacked (its fields copied)
+    instead of becoming a base class: exactly when it is declared on a union, or spread at a position of another type than
+    its type condition, or has an inline fragment at its top level"""
+    props = ("C08",)
+    target = "ariadne_codegen.client_generators.result_types:ResultTypesGenerator._unpack_fragment"
+    use_at_calls = False
+    frame_args = False
+
+    def setup(self, E):
+        tm = E.sym("type_map", DictOf(GQ.NAME, SCHEMA_TYPE, name="type_map_08"))
+        self_ = self_obj(RT.ResultTypesGenerator, {"schema": Obj(FakeSchema, {"type_map": tm})})
+        return [self_, E.sym("fragment_def", FRAGMENT_DEF), E.sym("root_type_def", Opt(SCHEMA_TYPE))], {}
+
+    @property
+    def loops(self):
+        def inv(rest, xs, st, I, env):
+            # nothing is modified; every selection passed so far is not an inline fragment
+            return is_inline.any_fn()(rest) == is_inline.any_fn()(xs)
+        return {"ResultTypesGenerator._unpack_fragment": inv}
+
+    def ensures(self, A, res):
+        fd = A.fragment_def
+        tc = V.attr_of(V.attr_of(V.attr_of(fd, G.FragmentDefinitionNode, "type_condition"), G.NamedTypeNode, "name"), G.NameNode, "value")
+        tm = A["type_map"] if "type_map" in A else z3.Const("type_map", V.Val)
+        named = z3.Not(V.is_VNone(V.attr_of(fd, G.FragmentDefinitionNode, "name")))
+        on_union = z3.And(named, has(tm, tc), GQ.is_cls(get(tm, tc), V.REG.info(G.GraphQLUnionType)))
+        root = A.root_type_def
+        other_type = z3.And(z3.Not(V.is_VNone(root)), tc != GQ.name_of(root))
+        sels = V.vt(V.attr_of(V.attr_of(fd, G.FragmentDefinitionNode, "selection_set"), G.SelectionSetNode, "selections"))
+        has_inline = is_inline.any_fn()(sels)
+        return {"unpacked-iff-on-a-union/spread-at-another-type/has-a-top-level-inline-fragment":
+                    V.vb(res) == z3.Or(on_union, other_type, has_inline)}
+
+    def replay_custom(self, inputs):
+        return dict(inputs={k: str(v)[:200] for k, v in inputs.items()}, failed=[], pre_ok=True, outcome=None, error=None,
+                    undetermined=["replayed end to end by contracts.e2e_fragments"])
+
+
+CONTRACTS.append(UnpackFragment())
+
+
 # ------------------------------------------------------------------------------------------ bounded: class ordering
 def bounded_fragment_order(tier, seed):
     """every DAG on <= 4 (thorough: 5) fragment names, every assignment of names (alphabetical order vs. dependency
